@@ -126,23 +126,24 @@ Definition val_bent (v : fval) : bent :=
   end.
 Definition bent_zero : fval := bent_val (mkBE 0 0 0 0 []).
 
-(* BlockEntity.WriteTo: Byte, Short, VarInt, NBT(RawMessage) = type byte then the raw data *)
+(* BlockEntity.WriteTo: Byte, Short, VarInt, NBT(RawMessage) = type byte then the raw data; a RawMessage
+   of type TagEnd (no NBT data) is written as NBT(nil), a lone TAG_End (since fix b1644ed) *)
 Definition be_write (v : fval) : wres :=
   let b := val_bent v in
   wcat (w_byte (e_xz b)) (wcat (w_short (e_y b)) (wcat (w_varint (e_type b))
-       (wbytes (e_nt b mod 256 :: e_data b)))).
+       (if e_nt b mod 256 =? C01.idEnd then wbytes [C01.idEnd] else wbytes (e_nt b mod 256 :: e_data b)))).
 
-(* NBTField{V: &b.Data}.ReadFrom: a lone TagEnd leaves the destination as it was; otherwise
-   RawMessage.UnmarshalNBT records the tag type and exactly the bytes rawRead consumed; an ErrEND from
-   inside (a list of TAG_End with a positive count) ends the field, destination unchanged *)
-Definition raw_read (fuel : nat) (old : bent) : dec (N * list N * N) :=
+(* BlockEntity.ReadFrom first sets b.Data to (TagEnd, empty) (since fix b1644ed); then
+   NBTField{V: &b.Data}.ReadFrom: a lone TagEnd leaves that; otherwise
+   RawMessage.UnmarshalNBT records the tag type and exactly the bytes rawRead consumed (rawRead never
+   reports ErrEND: a TAG_End below the root is an unknown tag to it) *)
+Definition raw_body (fuel : nat) (old : bent) : dec (N * list N) :=
   ReadByte (fun id =>
-    if id =? C01.idEnd then Ret (e_nt old, e_data old, 1)
-    else r <- catch_end (C01.tee (C01.dec_skip fuel id)) ;;
-         match r with
-         | Some (_, bs) => Ret (id, bs, 1 + lenN bs)
-         | None => Ret (e_nt old, e_data old, 0)          (* count unknown: see be_read *)
-         end).
+    if id =? C01.idEnd then Ret (C01.idEnd, [])
+    else r <- C01.tee (C01.dec_skip fuel id) ;; Ret (id, snd r)).
+(* the count is what the countingReader saw *)
+Definition raw_read (fuel : nat) (old : bent) : dec (N * list N * N) :=
+  r <- C01.tee (raw_body fuel old) ;; Ret (fst r, lenN (snd r)).
 
 (* BlockEntity.ReadFrom into the element that is already in the slot *)
 Definition be_read (fuel : nat) (oldv : fval) : rd :=
@@ -549,3 +550,7 @@ Definition arr_get (a : list Z) (i : Z) : Z := nth (Z.to_nat i) a 0%Z.
 Definition arr_set (a : list Z) (i v : Z) : list Z := upd_nth a (Z.to_nat i) v.
 Definition non_air (is_air : Z -> bool) (a : list Z) : Z :=
   Z.of_nat (length (filter (fun v => negb (is_air v)) a)).
+
+(* the counter run of the correspondence check *)
+Definition arr_set_blocks (is_air : Z -> bool) : Z * list Z -> list (Z * Z) -> Z * list Z :=
+  set_blocks (list Z) arr_get arr_set is_air.
